@@ -70,6 +70,8 @@ def gen_c19(rng, tier):
     g = GRID_US if dyadic else 1
     n = rng.choice([5, 15, 40, 80] if tier == "quick" else [10, 40, 120, 250])
     period, period_us = _nice_seconds(rng, dyadic, 1000, 2_000_000)
+    if kind != "watchdog" and rng.random() < 0.06:
+        period, period_us = rng.choice([0, 0.0]), 0        # a legal degenerate period: nothing is held back
     cfg = {"kind": kind, "dyadic": dyadic, "period": period, "period_us": period_us,
            "boot_us": rng.choice([0, 0, 1, 64, 64000]) * g if dyadic else rng.choice([0, 0, 17, 999_999, 10**7])}
     ops = []
